@@ -4,7 +4,9 @@ use crate::prng::Prng;
 use crate::report::Report;
 
 pub mod c03;
+pub mod c04;
 pub mod c05;
+pub mod c06;
 pub mod c07;
 pub mod common;
 
@@ -34,7 +36,9 @@ pub trait Monitor {
 pub fn make(prop: &str) -> Option<Box<dyn Monitor>> {
     match prop {
         "C03" => Some(Box::new(c03::C03::new())),
+        "C04" => Some(Box::new(c04::C04::new())),
         "C05" => Some(Box::new(c05::C05::new())),
+        "C06" => Some(Box::new(c06::C06::new())),
         "C07" => Some(Box::new(c07::C07::new())),
         _ => None,
     }
